@@ -57,17 +57,49 @@ impl<R: BufRead> Decoder<R> {
     pub fn read_line(&mut self) -> IoResult<Option<&str>> {
         self.read_buf.clear();
 
-        if self.inner.read_until(b'\n', &mut self.read_buf)? == 0 {
-            return Ok(None);
+        // In UTF-16 the byte 0x0A is also part of other code units, e.g.
+        // U+4E0A or U+0A41, so reading continues until the byte belongs to a
+        // line feed unit of its own.
+        loop {
+            let read = self.inner.read_until(b'\n', &mut self.read_buf)?;
+
+            if read == 0 || !self.read_buf.ends_with(b"\n") {
+                // End of input
+                break;
+            }
+
+            let len = self.read_buf.len();
+
+            match self.encoding {
+                Encoding::Utf8 => break,
+                Encoding::Utf16BE => {
+                    // 0x0A must be the low byte of a unit whose high byte is 0
+                    if len % 2 == 0 && self.read_buf[len - 2] == 0 {
+                        break;
+                    }
+                }
+                Encoding::Utf16LE => {
+                    // An odd length means 0x0A is the low byte of its unit so
+                    // the high byte is yet to be read. Reading up to b'\n'
+                    // misses it. The input may also end right there.
+                    if len % 2 == 1 {
+                        match self.next_byte()? {
+                            Some(byte) => {
+                                self.read_buf.push(byte);
+
+                                if byte == 0 {
+                                    break;
+                                }
+                            }
+                            None => break,
+                        }
+                    }
+                }
+            }
         }
 
-        // Reading up to b'\n' will miss the final b'\0' for an UTF-16LE encoded
-        // string so we need to read an additional byte.
-        if self.encoding == Encoding::Utf16LE && self.read_buf.ends_with(b"\n") {
-            // The input may end right after the line feed's low byte.
-            if let Some(byte) = self.next_byte()? {
-                self.read_buf.push(byte);
-            }
+        if self.read_buf.is_empty() {
+            return Ok(None);
         }
 
         Ok(Some(self.curr_line()))
